@@ -222,6 +222,10 @@ type World struct {
 	// PollInterval of the device flow: fake time inside a bubble; real time in the race run
 	PollInterval time.Duration
 	Hooks        *Hooks
+	// Quiesce (set by the checker inside a synctest bubble, nil in the race run) waits until every
+	// goroutine the library started has finished or is durably blocked: a remote key set downloads
+	// in a goroutine of its own and clears its in-flight marker only after waking the caller
+	Quiesce func()
 	// one signer per key, shared by every goroutine like the signer an application holds
 	AppSigner, SvcSigner jose.Signer
 }
@@ -1466,9 +1470,15 @@ var unknownKidJWS = func() *jose.JSONWebSignature {
 // probe runs a library call while every first request is answered with a 302 and
 // reports whether the instance's HTTP client followed it.
 func (w *World) probe(call func()) string {
+	if w.Quiesce != nil {
+		w.Quiesce()
+	}
 	Net.Redirect.Store(true)
 	n0 := Net.Count.Load()
 	p := engine.Safe(call)
+	if w.Quiesce != nil {
+		w.Quiesce()
+	}
 	n := Net.Count.Load() - n0
 	Net.Redirect.Store(false)
 	switch {
